@@ -131,6 +131,55 @@ def run(rep, tier, seed):
             fails = [] if o2 == ('OK', b2s(pkt)) else ['rule set with own alternatives per rule: round trip gives %s' % (str(o2)[:100],)]
             line = ' '.join(['S', 'cmdecompress', tb(out[1]), DIRC[d]] + rules_tokens(nrs))
             b.add('ruleset-own-descriptors:roundtrip', line, o2, parse_model_bits, fails, dict(layer='schc', op='cmdecompress', schc=out[1], rules=nrs, direction=DIRC[d]), key=line)
+    # descriptor lists of different LENGTHS per direction: some descriptors exist for one direction only (first, middle, last, a trailing
+    # block), so that for the other direction the rule is one or more descriptors short of (or beyond) the packet's fields: it applies
+    # in exactly the direction for which the counts agree, and compress / decompress use the same descriptors
+    for i in range(n // 2):
+        stack, pkt, st, pd = gen_parsed(rnd, STACKS[i % len(STACKS)])
+        d = rnd.choice([DI.UP, DI.DOWN])
+        other = DI.DOWN if d == DI.UP else DI.UP
+        pd.direction = d
+        nf = len(pd.fields)
+        shape = rnd.choice(['last-d-only', 'last-d-only', 'first-d-only', 'middle-d-only', 'tail-block-d-only', 'extra-other-last', 'extra-other-middle', 'both'])
+        only = set()
+        if shape in ('last-d-only', 'both'):
+            only = {nf - 1}
+        elif shape == 'first-d-only':
+            only = {0}
+        elif shape == 'middle-d-only':
+            only = {rnd.randrange(nf)}
+        elif shape == 'tail-block-d-only':
+            only = set(range(rnd.randrange(nf), nf))
+        fds = []
+        for j, f_ in enumerate(pd.fields):
+            fds.append(gen_rfd(rnd, f_, rnd.choice(KINDS), d if j in only else rnd.choice([DI.BIDIRECTIONAL, DI.BIDIRECTIONAL, d])))
+            if fds[-1].direction == d and j not in only:
+                fds.append(gen_rfd(rnd, f_, rnd.choice(KINDS), other))
+        if shape in ('extra-other-last', 'both'):
+            fds.append(gen_rfd(rnd, pd.fields[-1], rnd.choice(('vs', 'ns', 'lsb')), other))
+        if shape == 'extra-other-middle':
+            j = rnd.randrange(len(fds) + 1)
+            fds.insert(j, gen_rfd(rnd, rnd.choice(pd.fields), rnd.choice(('vs', 'ns', 'lsb')), other))
+        rule = RuleDescriptor(id=mk(randbits(rnd, rnd.randint(1, 8)), rnd.choice([L, R])), field_descriptors=fds)
+        nr = n_rule(rule)
+        cm = ContextManager(Context(id='c', description='', interface_id='i', parser_id=stack, ruleset=[rule]))
+        for dd in (other, d, other):
+            pd.direction = dd
+            case_match(b, pd, [rule], klass='descriptor-count:%s:match' % shape)
+            npd_d = dict(n_pdesc(pd), dir=DIRC[dd])
+            applies = ref_rule_applies(npd_d, nr)
+            rep.hist['descriptor-count:%s:%s' % (shape, 'applies' if applies else 'does-not-apply')] = rep.hist.get('descriptor-count:%s:%s' % (shape, 'applies' if applies else 'does-not-apply'), 0) + 1
+            out = obs_bits(with_timeout(lambda: cm.compress(Buffer(pkt, len(pkt) * 8), direction=dd)))
+            want = ('OK', ref_compress(npd_d, nr, DIRC[dd])) if applies else ('EXC', 'RuleDescriptorMatchError')
+            fails = [] if out == want else ['rule with %s descriptors, direction %s: manager compress gives %s, expected %s' % (shape, DIRC[dd], str(out)[:100], str(want)[:100])]
+            line = ' '.join(['S', 'cmcompressp', stack, tb(b2s(pkt)), DIRC[dd], 'F'] + rules_tokens([nr]))
+            b.add('descriptor-count:compress', line, out, parse_model_bits, fails, dict(layer='schc', op='cmcompress', stack=stack, packet=pkt.hex(), rules=[nr], direction=DIRC[dd]), key=(line, i))
+            if out[0] == 'OK' and isinstance(out[1], str):
+                o2 = obs_bits(with_timeout(lambda: cm.decompress(mk(out[1], R), direction=dd)))
+                fails = [] if o2 == ('OK', b2s(pkt)) else ['rule with %s descriptors, direction %s: round trip gives %s' % (shape, DIRC[dd], str(o2)[:100])]
+                line = ' '.join(['S', 'cmdecompress', tb(out[1]), DIRC[dd]] + rules_tokens([nr]))
+                b.add('descriptor-count:roundtrip', line, o2, parse_model_bits, fails, dict(layer='schc', op='cmdecompress', schc=out[1], rules=[nr], direction=DIRC[dd]), key=(line, i))
+        pd.direction = d
     # one long-lived ContextManager serving both directions in turn (what it did for Up must not leak into Dw)
     for i in range(n // 4):
         stack, pkt, st, pd = gen_parsed(rnd, STACKS[i % len(STACKS)])
